@@ -473,7 +473,9 @@ def finish(h, tier, total, cov, wall):
             print(f"HARNESS-ERROR property={pid} replay crashed\n{traceback.format_exc()}", file=sys.stderr)
             harness_errors.append(("HARNESS-ERROR", case, "replay crashed"))
             continue
-        if jdump(r1) != jdump(r2) or clause not in [c for c, _ in r1]:
+        # the clause must fail again in both replays; the wording of the detail may differ when the implementation
+        # itself is not deterministic (e.g. an unseeded random generator), which does not make the finding less real
+        if clause not in [c for c, _ in r1] or clause not in [c for c, _ in r2]:
             print(
                 f"HARNESS-ERROR property={pid} violation of {clause} is not reproducible on replay: {jdump(case)[:400]}",
                 file=sys.stderr,
